@@ -253,13 +253,13 @@ func c06Deliver(c *deliverCtx) {
 	if !refMade || c.faulty || c.sa == nil || c.toRole == d.From {
 		return
 	}
-	what := fmt.Sprintf("pad%d", p/16)
+	_ = p
 	switch c.res.class() {
 	case "panic":
 		w.violate("ref_message_panics", panicKey(c.res), "DecodeDecrypt panicked on a well-formed message built by the independent peer (pad length %d): %s", p, c.res.Panic)
 		return
 	case "err":
-		w.violate("ref_message_rejected", what+":"+errKey(c.res.Err), "a well-formed message built by the independent peer (%s, pad length %d, %d inner payloads) is rejected: %v",
+		w.violate("ref_message_rejected", errKey(c.res.Err), "a well-formed message built by the independent peer (%s, pad length %d, %d inner payloads) is rejected: %v",
 			c.sa.Suite, p, len(d.Spec.Payloads), c.res.Err)
 		return
 	}
